@@ -63,7 +63,7 @@ def to_step(act, rng, idmap):
 def random_scenario(rng, nsteps):
     k = rng.randint(2, 6)
     names = {i + 1: s for i, s in enumerate(rng.sample(NAME_POOL, k))}
-    if rng.random() < 0.2:
+    if rng.random() < 0.12:
         names[90] = rng.choice(LONG_POOL)
     state = {n: None for n in names}     # None | "fresh" | "legacy" | "bad"
     steps = []
@@ -153,7 +153,7 @@ def run(ctx):
             #  a forged block size, see C04)
             withlong = [t for t in tests if any(s["act"]["n"] == 3 for s in t)]
             without = [t for t in tests if t not in withlong]
-            tests = rng.sample(without, min(len(without), 30)) + rng.sample(withlong, min(len(withlong), 8))
+            tests = rng.sample(without, min(len(without), 30)) + rng.sample(withlong, min(len(withlong), 4))
         for t in tests:
             two = rng.sample(NAME_POOL, 2)
             names = {1: two[0], 2: two[1], 90: rng.choice(LONG_POOL)}
